@@ -1,5 +1,5 @@
 (* Discovery.v — model of internal/plugincommon/discovery/processor.go: aggregateObservations and Outcome
-   (the ContractAddresses handed to CCIPReader.Sync). Addresses are ids interned from their "%v" rendering;
+   (the ContractAddresses handed to CCIPReader.Sync). Addresses are ids interned from their raw bytes;
    id 0 stands for every address for which isZero holds (nil, empty, all zero bytes). *)
 Require Import Verif.Model.Base Verif.Model.Consensus Verif.Model.CommitConsensus.
 
